@@ -231,9 +231,29 @@ def engine_roles(c, flavour, cache=False, sink=True, past=None):
     universe = _universe(c["graph"], [c["roles"]])
     pol = _roles_policy(universe)
     sink = Sink() if sink else None
+    # resolver objects that are falsy as Python objects: configured all the same, consulted like any other
+    class FalsyListR(list):
+        expand = SyncR.expand
+
+    class FalsyDictR(dict):
+        expand = SyncR.expand
+
+    class FalsyLenR(SyncR):
+        def __len__(self):
+            return 0
+
+    class FalsyBoolR(SyncR):
+        def __bool__(self):
+            return False
+
+    class FalsyLenAsyncR(AsyncR):
+        def __len__(self):
+            return 0
+
     res = {"sync": SyncR, "async": AsyncR, "raising": RaisingR, "raising-async": AsyncRaisingR,
            "raising-awaitable": DefRaisingAwaitableR, "def-coroutine": DefCoroutineR,
-           "custom-awaitable": CustomAwaitableR}[flavour]()
+           "custom-awaitable": CustomAwaitableR, "falsy-list": FalsyListR, "falsy-dict": FalsyDictR,
+           "falsy-len0": FalsyLenR, "falsy-bool": FalsyBoolR, "falsy-len0-async": FalsyLenAsyncR}[flavour]()
     kw = {}
     if cache:
         from rbacx.core.cache import DefaultInMemoryCache
@@ -588,10 +608,303 @@ def check_overlap(chk, scen):
                 break
 
 
+# ---------------------------------------------------------------------------------------------------------------
+# histories on one Guard: collaborators and callers that keep or edit what they are handed / what they own
+# ---------------------------------------------------------------------------------------------------------------
+
+# generated kinds.  NOT generated: "scribble-raise" / "extend-raise" (edit the argument, then fail) — on the unchanged
+# library the engine falls back to its working copy, which the resolver has edited, not to the subject's own roles
+# (reported to the coordinator in round 6; the kinds stay implemented below for replays)
+HIST_KINDS = ("pure", "inplace-same", "extend-arg", "sort-arg", "clear-arg", "same-if-equal", "raise", "raise")
+HIST_FALSY = (None, "list", "dict", "len0", "boolfalse")
+
+
+def _hist_resolver(spec, state):
+    """a resolver that answers with the closure under state["base"] (the graph configured now) and treats the list it
+    is handed as its own: edits it in place (kind), returns it or a new list, or fails after scribbling on it"""
+    kind = spec["kind"]
+
+    def core(roles):
+        base = state["base"]
+        if kind == "pure":
+            return base.expand(roles)
+        if kind == "inplace-same":               # computes the closure on its argument and returns it
+            roles[:] = base.expand(roles)
+            return roles
+        if kind == "extend-arg":                 # worklist on the argument, answer is a new list
+            out = base.expand(roles)
+            roles.extend(x for x in out if x not in roles)
+            return out
+        if kind == "sort-arg":
+            roles.sort()
+            return base.expand(roles)
+        if kind == "clear-arg":
+            out = base.expand(roles)
+            del roles[:]
+            return out
+        if kind == "same-if-equal":              # nothing to add: hands its argument back
+            out = base.expand(roles)
+            return roles if out == roles else out
+        if kind == "raise":
+            raise ConnectionError("role directory unreachable")
+        if kind == "scribble-raise":
+            roles.append("!scribble")
+            raise ConnectionError("role directory unreachable")
+        if kind == "extend-raise":
+            roles.extend(x for x in base.expand(roles) if x not in roles)
+            raise ConnectionError("role directory unreachable")
+        raise ValueError("unknown resolver kind " + repr(kind))
+
+    if spec.get("async"):
+        async def expand(self, roles):
+            await asyncio.sleep(0)
+            return core(roles)
+    else:
+        def expand(self, roles):
+            return core(roles)
+    falsy = spec.get("falsy")
+    ns = {"expand": expand}
+    if falsy == "len0":
+        ns["__len__"] = lambda self: 0
+    if falsy == "boolfalse":
+        ns["__bool__"] = lambda self: False
+    bases = {"list": (list,), "dict": (dict,)}.get(falsy, (object,))
+    return type("HistResolver", bases, ns)()
+
+
+def _hist_apply_edit(lst, op):
+    """the caller edits the list it owns (the one its Subjects are built from)"""
+    if op[1] == "append":
+        lst.append(op[2])
+    elif op[1] == "remove":
+        if op[2] in lst:
+            lst.remove(op[2])
+    elif op[1] == "sort":
+        lst.sort()
+    elif op[1] == "clear":
+        del lst[:]
+    else:
+        raise ValueError("unknown caller edit " + repr(op))
+
+
+def _hist_shadow(c):
+    """(graph, own roles) at every eval op of the history, as the caller means them"""
+    graph, own, out = c["graph"], list(c["roles"] or []), []
+    for op in c["ops"]:
+        if op[0] == "eval":
+            out.append({"graph": graph, "roles": list(own)})
+        elif op[0] == "graph":
+            graph = op[1]
+        elif op[0] == "edit":
+            _hist_apply_edit(own, op)
+    return out
+
+
+def _hist_universe(c):
+    gs = [c["graph"]] + [op[1] for op in c["ops"] if op[0] == "graph"]
+    names = set(c["roles"] or [])
+    for g in gs:
+        names |= set(g) | {p for ps in g.values() for p in ps}
+    for op in c["ops"]:
+        if op[0] == "eval":
+            names |= set(op[1])
+        elif op[0] == "edit" and len(op) > 2:
+            names.add(op[2])
+    return sorted(names)
+
+
+def run_history(c):
+    """c: {"graph", "roles", "resolver": {kind, async, falsy}, "cache", "via": sync|async, "subject": reuse|fresh,
+    "ops": [["eval", [probes]] | ["graph", g] | ["edit", how, role?]]}.  The sink keeps the payload objects; they are
+    read only after the whole history.  Returns one record per eval op."""
+    from rbacx.core.engine import Guard
+    from rbacx.core.model import Action, Context, Resource, Subject
+    from rbacx.core.roles import StaticRoleResolver
+
+    state = {"base": StaticRoleResolver(c["graph"])}
+    res = _hist_resolver(c["resolver"], state)
+
+    class Sink:
+        def __init__(self):
+            self.payloads = []
+
+        def log(self, payload):
+            self.payloads.append(payload)
+
+    universe = _hist_universe(c)
+    sink = Sink()
+    kw = {}
+    if c.get("cache"):
+        from rbacx.core.cache import DefaultInMemoryCache
+        kw["cache"] = DefaultInMemoryCache(256)
+    g = Guard(_roles_policy(universe), role_resolver=res, logger_sink=sink, **kw)
+    caller = list(c["roles"] or [])           # the caller's own list; every Subject is built from this object
+    subj = Subject(id="u", roles=caller)
+    recs = []
+
+    async def one(s, probe):
+        a = (s, Action("a%d" % universe.index(probe)), Resource(type="doc", id="1"), Context({}))
+        try:
+            return bool((await g.evaluate_async(*a)).allowed)
+        except Exception as e:  # noqa: BLE001
+            return "!evaluation-raised:" + type(e).__name__
+
+    def one_sync(s, probe):
+        try:
+            return bool(g.evaluate_sync(s, Action("a%d" % universe.index(probe)), Resource(type="doc", id="1"), Context({})).allowed)
+        except Exception as e:  # noqa: BLE001
+            return "!evaluation-raised:" + type(e).__name__
+
+    async def go_async():
+        for op in c["ops"]:
+            if op[0] == "eval":
+                s = subj if c.get("subject") == "reuse" else Subject(id="u", roles=caller)
+                n0 = len(sink.payloads)
+                before = list(caller)
+                allowed = [await one(s, p) for p in op[1]]
+                recs.append({"allowed": allowed, "caller_before": before, "caller_after": list(caller),
+                             "payloads": sink.payloads[n0:]})
+            elif op[0] == "graph":
+                state["base"] = StaticRoleResolver(op[1])
+            else:
+                _hist_apply_edit(caller, op)
+
+    def go_sync():
+        for op in c["ops"]:
+            if op[0] == "eval":
+                s = subj if c.get("subject") == "reuse" else Subject(id="u", roles=caller)
+                n0 = len(sink.payloads)
+                before = list(caller)
+                allowed = [one_sync(s, p) for p in op[1]]
+                recs.append({"allowed": allowed, "caller_before": before, "caller_after": list(caller),
+                             "payloads": sink.payloads[n0:]})
+            elif op[0] == "graph":
+                state["base"] = StaticRoleResolver(op[1])
+            else:
+                _hist_apply_edit(caller, op)
+
+    if c.get("via") == "sync":
+        go_sync()
+    else:
+        asyncio.run(go_async())
+    # the audit records, read now: after everything the caller did to its list later on
+    for r in recs:
+        r["audit"] = [list(p["env"]["subject"]["roles"]) if isinstance(p["env"]["subject"]["roles"], list)
+                      else repr(p["env"]["subject"]["roles"]) for p in r.pop("payloads")]
+    return recs
+
+
+def gen_histories(chk, bases, n):
+    rng = chk.rng
+    out = []
+    if not bases:
+        return out
+    for k in range(n):
+        b = bases[k] if k < len(bases) else bases[rng.randrange(len(bases))]
+        graph = {x: list(ps) for x, ps in b["graph"].items()}
+        own = list(b["roles"] or [])
+        nodes = sorted(set(graph) | {p for ps in graph.values() for p in ps} | set(own)) or ["x"]
+        ops, g = [["eval", []]], graph
+        for _ in range(rng.choice([1, 1, 2, 3])):
+            u = rng.random()
+            if u < 0.6:                                    # the graph changes between two evaluations
+                g2 = {x: list(ps) for x, ps in g.items()}
+                v = rng.random()
+                have = [x for x in own if g2.get(x)] or [x for x in g2 if g2[x]]
+                if v < 0.6 and have:                       # an inheritance edge (or all of a role's) is removed
+                    x = rng.choice(have)
+                    if rng.random() < 0.5:
+                        g2[x] = []
+                    else:
+                        g2[x] = [p for p in g2[x] if p != rng.choice(g2[x])]
+                elif v < 0.8:
+                    g2 = {}
+                else:
+                    g2.setdefault(rng.choice(nodes), []).append(rng.choice(nodes + ["newrole"]))
+                ops.append(["graph", g2])
+                g = g2
+            if u >= 0.4:                                   # the caller edits its own list
+                how = rng.choice(["append", "append", "remove", "sort", "clear"])
+                if how == "append":
+                    ops.append(["edit", "append", rng.choice(nodes + ["granted-later"])])
+                elif how == "remove" and own:
+                    ops.append(["edit", "remove", rng.choice(own)])
+                else:
+                    ops.append(["edit", how if how != "remove" else "sort"])
+            ops.append(["eval", []])
+        ops.append(["edit", "append", "granted-later"])    # ... and once more after the last evaluation
+        if rng.random() < 0.3:
+            ops.append(["edit", rng.choice(["sort", "clear"])])
+        kind = rng.choice(HIST_KINDS)
+        out.append({"hist": True, "graph": graph, "roles": own, "ops": ops,
+                    "resolver": {"kind": kind, "async": rng.random() < 0.4, "falsy": rng.choice(HIST_FALSY + (None, None))},
+                    "cache": rng.random() < 0.2, "via": rng.choice(["sync", "async", "async"]),
+                    "subject": rng.choice(["reuse", "reuse", "fresh"])})
+    # probes: roles whose membership differs from the step before (revoked / granted), roles the expansion adds, others
+    flat = [x for c in out for x in _hist_shadow(c)]
+    ms = iter(_model_expand(flat))
+    for c in out:
+        uni = _hist_universe(c)
+        prev = None
+        for op in c["ops"]:
+            if op[0] != "eval":
+                continue
+            m = next(ms)
+            cand = [r for r in uni if prev is not None and ((r in m) != (r in prev))]
+            rng.shuffle(cand)
+            probes = cand[:2]
+            probes += [r for r in m if r not in probes][:1]
+            probes.append(rng.choice(uni))
+            op[1] = sorted(set(probes))
+            prev = m
+    return out
+
+
+def check_histories(chk, hs):
+    flat = [x for c in hs for x in _hist_shadow(c)]
+    ms = iter(_model_expand(flat))
+    for c in hs:
+        shadow = _hist_shadow(c)
+        exp = [next(ms) for _ in shadow]
+        try:
+            recs = run_history(c)
+        except Exception as e:  # noqa: BLE001  (trouble of the harness itself must not look like a verdict)
+            raise RuntimeError("C18 history runner failed on %r: %r" % (c, e)) from e
+        failing = c["resolver"]["kind"] in ("raise", "scribble-raise", "extend-raise")
+        spec = c["resolver"]
+        what = (f"resolver {spec['kind']}{' async' if spec.get('async') else ''}{' falsy:' + spec['falsy'] if spec.get('falsy') else ''}, "
+                f"{'one Subject reused' if c.get('subject') == 'reuse' else 'a new Subject from the same caller list each time'}, "
+                f"evaluate_{'sync' if c.get('via') == 'sync' else 'async'}{', decision cache on' if c.get('cache') else ''}; history "
+                + " > ".join(op[0] if op[0] != "edit" else "caller-" + op[1] for op in c["ops"]))
+        chk.count("history:" + spec["kind"])
+        chk.count("history-falsy:" + str(spec.get("falsy")))
+        evals = [op for op in c["ops"] if op[0] == "eval"]
+        for i, (op, sh, m, r) in enumerate(zip(evals, shadow, exp, recs)):
+            expect = list(sh["roles"]) if failing else m
+            chk.mark(("history", repr(spec), repr(c["graph"]), repr(c["ops"]), i), any(sh["graph"].get(x) for x in sh["roles"]))
+            if r["caller_after"] != r["caller_before"] or r["caller_before"] != sh["roles"]:
+                chk.violation(f"evaluation modified the caller's roles list (Subject.roles), which the engine must only read "
+                              f"(evaluation {i}; {what}; theorem c18_engine_roles: own roles = the subject's)",
+                              c, impl={"before": r["caller_before"], "after": r["caller_after"]}, model=sh["roles"])
+                break
+            want = [p in expect for p in op[1]]
+            if r["allowed"] != want:
+                chk.violation(f"conditions do not see exactly the expanded roles of the subject's current roles under the current graph "
+                              f"(evaluation {i}, probes {op[1]}; {what}; theorems c18_engine_roles/c18_has_any/c18_has_all/c18_contains/c18_in)",
+                              c, impl=r["allowed"], model=want)
+                break
+            if any(a != expect for a in r["audit"]):
+                chk.violation(f"audit payload roles (payload objects kept by the sink, read after the history) differ from the roles "
+                              f"the decision was taken with (evaluation {i}; {what}; theorem c18_audit_roles)",
+                              c, impl=r["audit"][:2], model=expect)
+                break
+
+
 ENGINE_STD = (("sync", False), ("async", False), ("raising", False), ("sync", True), ("async", True),
               ("raising-async", False), ("raising-awaitable", False), ("def-coroutine", False), ("custom-awaitable", False),
               ("raising-async", True))
-ENGINE_FLAVOURS = ("sync", "async", "raising", "raising-async", "raising-awaitable", "def-coroutine", "custom-awaitable")
+ENGINE_FLAVOURS = ("sync", "async", "raising", "raising-async", "raising-awaitable", "def-coroutine", "custom-awaitable",
+                   "falsy-list", "falsy-dict", "falsy-len0", "falsy-bool", "falsy-len0-async")
 
 
 def _extra_cfgs(rng, quick, idx):
@@ -621,7 +934,8 @@ def _cfg_text(cfg):
 
 def check_cases(chk, cases, replay=False):
     scen = [c for c in cases if c.get("overlap")]
-    cases = [c for c in cases if not c.get("overlap")]
+    hists = [c for c in cases if c.get("hist")]
+    cases = [c for c in cases if not c.get("overlap") and not c.get("hist")]
     model = _model_expand(cases)
     for c, m in zip(cases, model):
         if c.get("cfg"):           # replay of an engine-side failure under one Guard configuration: engine part only
@@ -681,6 +995,10 @@ def check_cases(chk, cases, replay=False):
         nontriv = [c for c in sub if c["roles"] and any(c["graph"].get(r) for r in c["roles"])]
         scen = scen + gen_overlap(chk, nontriv + sub, 120 if chk.tier == "quick" else 2500)
     check_overlap(chk, scen)
+    # histories: resolvers that edit their argument, Subjects reused, graphs and caller lists edited in between
+    if not replay:
+        hists = hists + gen_histories(chk, nontriv + sub, 90 if chk.tier == "quick" else 3000)
+    check_histories(chk, hists)
 
 
 def run(chk):
